@@ -18,7 +18,7 @@ from __future__ import annotations
 from harness import detsched, fakeproc, loader
 
 HELPERS = ("EventDebouncer", "ProcessWatcher")
-MAX_STEPS = 4000  # the programs here take < 300 scheduler steps; a run-away restart loop is cut here (outcome "steplimit")
+MAX_STEPS = 1200  # the programs here take < 400 scheduler steps; a run-away loop is cut here (line `steplimit`)
 
 
 def _world():
